@@ -16,7 +16,7 @@ Definition chk_general (e : elem) : bool :=
   let p := parent_of e in
   forallb (fun mt => coeffs_within tol13 (PEsub (rule_sum (the_rule e mt) (detJ p)) (measure_star p))) ["rigi"; "mass"]%string.
 Lemma all_general : forallb chk_general heavy_elems = true.
-Proof. vm_compute. reflexivity. Qed.
+Proof. vm_cast_no_check (eq_refl true). Qed.
 
 Theorem measure_exact_general_hexa_prism : forall e, In e all_elems -> heavy e = true ->
   forall mt, mt = "rigi"%string \/ mt = "mass"%string ->
